@@ -9,6 +9,7 @@ from typing import Dict, List, Optional, Set, Tuple
 
 from ..cfg import CFG, Node
 from ..core import AnalysisError, Cls, Fn, Repo, call_name, calls_in, const_value, dotted, get_kw, last_attr, short, walk_no_nested
+from ..pat import has
 from ..report import Check
 
 AV = "agilerl.vector.pz_async_vec_env"
@@ -226,8 +227,8 @@ def _raise_if_errors(ck: Check, repo: Repo, fn: Fn) -> bool:
         ck.ob("C13.3", fn, r.ast, okr, "the parent re-raises the worker's exception type with the worker's exception value (queue item fields 1 and 2)")
     # early return when no error; count = num_envs - sum(successes)
     src = ast.unparse(fn.node)
-    ck.ob("C13.3", fn, fn.node, "if all(successes):\n        return" in src, "no queue access when every worker succeeded", construct="all(successes) early return")
-    ck.ob("C13.3", fn, fn.node, "self.num_envs - sum(successes)" in src, "one queue item is drained per failed worker", construct="num_errors = num_envs - sum(successes)")
+    ck.ob("C13.3", fn, fn.node, has(src, 'if all($successes):\n    return'), "no queue access when every worker succeeded", construct="all(successes) early return")
+    ck.ob("C13.3", fn, fn.node, has(src, 'self.num_envs - sum($successes)'), "one queue item is drained per failed worker", construct="num_errors = num_envs - sum(successes)")
     closes = [c for c in calls_in(fn.node) if last_attr(c) == "close" and "parent_pipes" in ast.unparse(c)]
     nulls = [n for n in walk_no_nested(fn.node) if isinstance(n, ast.Assign) and "self.parent_pipes[" in ast.unparse(n.targets[0]) and const_value(n.value) is None and isinstance(n.value, ast.Constant)]
     okc = bool(closes) and bool(nulls) and ast.unparse(closes[0].func.value) == ast.unparse(nulls[0].targets[0]) and closes[0].lineno < nulls[0].lineno
@@ -241,7 +242,7 @@ def _poll(ck: Check, repo: Repo, cls: Cls) -> None:
         raise AnalysisError("_poll_pipe_envs not found")
     cfg = CFG(fn.node)
     src = ast.unparse(fn.node)
-    ck.ob("C13.4", fn, fn.node, "if timeout is None:\n        return True" in src, "no timeout means wait indefinitely (documented)", construct="timeout None")
+    ck.ob("C13.4", fn, fn.node, has(src, 'if $timeout is None:\n    return True'), "no timeout means wait indefinitely (documented)", construct="timeout None")
     loops = [n for n in cfg.live_nodes() if n.kind == "for" and "self.parent_pipes" in ast.unparse(n.ast.iter)]
     ck.ob("C13.4", fn, loops[0].ast.iter if loops else fn.node, len(loops) == 1, "every pipe is polled")
     if loops:
@@ -301,14 +302,14 @@ def _close(ck: Check, repo: Repo, cls: Cls) -> None:
     ok = False
     for t in tries:
         src = ast.unparse(t)
-        if "self._state != AsyncState.DEFAULT" in src and "_wait" in src:
+        if has(src, 'self._state != AsyncState.DEFAULT') and "_wait" in src:
             hs = [h for h in t.handlers if h.type is not None and "TimeoutError" in ast.unparse(h.type)]
             ok = bool(hs) and any(isinstance(s, ast.Assign) and dotted(s.targets[0]) == "terminate" and const_value(s.value) is True for s in hs[0].body)
             calls = [c for c in calls_in(t) if isinstance(c.func, ast.Name) and c.func.id == "function"]
             ck.ob("C13.5", fn, calls[0] if calls else t, bool(calls) and calls[0].args and dotted(calls[0].args[0]) == "timeout",
                   "a pending call is awaited with the caller's timeout")
     ck.ob("C13.5", fn, tries[0] if tries else fn.node, ok, "a timeout while waiting for the pending call switches to terminate()")
-    ck.ob("C13.5", fn, fn.node, "timeout = 0 if terminate else timeout" in ast.unparse(fn.node), "terminate=True does not wait", construct="timeout = 0 if terminate")
+    ck.ob("C13.5", fn, fn.node, has(fn.node, '$timeout = 0 if $terminate else $timeout'), "terminate=True does not wait", construct="timeout = 0 if terminate")
     # terminate branch
     tests = [n for n in cfg.live_nodes() if n.kind == "test" and dotted(n.ast) == "terminate"]
     okt = False
@@ -320,7 +321,7 @@ def _close(ck: Check, repo: Repo, cls: Cls) -> None:
     if tests:
         els = tests[0].stmt.orelse
         src = ast.unparse(ast.Module(body=els, type_ignores=[]))
-        ck.ob("C13.5", fn, els[0] if els else fn.node, src.count("pipe is not None and (not pipe.closed)") >= 2 and "pipe.send(('close', None))" in src and "pipe.recv()" in src,
+        ck.ob("C13.5", fn, els[0] if els else fn.node, src.count("pipe is not None and (not pipe.closed)") >= 2 and has(src, "$pipe.send(('close', None))") and "pipe.recv()" in src,
               "graceful: close is sent to, and acknowledged by, every pipe that is still open (failed workers skipped)")
     # closing pipes and joining post-dominate the entry (normal paths)
     closes = [cfg.node_of(c) for c in calls_in(fn.node) if call_name(c) == "pipe.close"]
@@ -348,14 +349,14 @@ def _close(ck: Check, repo: Repo, cls: Cls) -> None:
     # base class close(): idempotent + flag
     bc = repo.fn(PV, "PettingZooVecEnv.close")
     src = ast.unparse(bc.node)
-    ck.ob("C13.5", bc, bc.node, "if self.closed:\n        return" in src, "close() on a closed environment returns at once", construct="closed early return")
+    ck.ob("C13.5", bc, bc.node, has(src, 'if self.closed:\n    return'), "close() on a closed environment returns at once", construct="closed early return")
     bcfg = CFG(bc.node)
     ce = [bcfg.node_of(c) for c in calls_in(bc.node) if call_name(c) == "self.close_extras"]
     fl = [n for n in bcfg.live_nodes() if n.kind == "stmt" and isinstance(n.ast, ast.Assign) and dotted(n.ast.targets[0]) == "self.closed" and const_value(n.ast.value) is True]
     ck.ob("C13.5", bc, fl[0].ast if fl else bc.node, bool(ce) and bool(fl) and bcfg.dominates(ce[0], fl[0]), "the closed flag is set after the resources were released")
     ar = repo.cls(AV, "AsyncPettingZooVecEnv").methods.get("_assert_is_running")
     src = ast.unparse(ar.node) if ar else ""
-    ck.ob("C13.1", ar or bc, (ar or bc).node, "if self.closed:" in src and "raise ClosedEnvironmentError" in src, "use after close raises ClosedEnvironmentError", construct="_assert_is_running")
+    ck.ob("C13.1", ar or bc, (ar or bc).node, has(src, 'if self.closed:\n    ...') and has(src, 'raise ClosedEnvironmentError'), "use after close raises ClosedEnvironmentError", construct="_assert_is_running")
 
 
 _AV = "agilerl/vector/pz_async_vec_env.py"
